@@ -149,7 +149,7 @@ PROPS = {
         "rule": "filterdiff: every term of the universe (leaves, workload filters, random And/Or/Not compositions to depth 3) "
                 "against itself built twice, all pairs of leaves (thorough: of all depth-1 terms), sampled pairs incl. near-misses, "
                 "workload filters with permuted sources; each pair evaluated on the whole object universe. Non-trivial: Equals "
-                "reported true, or the two Accept vectors differ. Distinct = distinct protocol line.",
+                "reported true, or the two Accept vectors differ. Distinct = distinct protocol line. Also: Equals asked again after both filters have been used (Accept) and against fresh builds of the same arguments; the nil-slice everything selector; the empty And()/Or() compared with every leaf.",
         "trusted_base": FILTER_TB,
         "assumptions": ["FN predicates are pure", "workload sources have distinct (namespace, name)"],
     },
@@ -237,7 +237,7 @@ PROPS = {
                 "server event streams with at most EventBufsiz/4 events in flight, subscriptions attached at arbitrary moments (also inside "
                 "bursts), schedule perturbation by virtual-time sleeps at the library's log calls. Every plain subscriber's drained sequence "
                 "must equal what the controller published since its attachment (per key in order, batches as multisets); the cache is read "
-                "at every observation. Non-trivial: an observation that carried events.",
+                "at every observation. Non-trivial: an observation that carried events. Also: a publisher whose logger blocks for 60-140 ms in the middle of a fan-out while somebody subscribes and more changes follow (a plain subscriber created inside a burst of server changes must end with exactly the events published after Subscribe returned); the controller's own publication point is perturbed through the scheduling-point hook (ctrl engine).",
         "trusted_base": TREE_TB,
         "assumptions": ["the subscriber keeps its backlog below EventBufsiz (harness drains at every quiescent point)"],
     },
@@ -247,7 +247,7 @@ PROPS = {
                 "blocks) never reads; streams of 70-375 events (several times EventBufsiz) paced in floods of <= EventBufsiz/4; stalled nodes "
                 "are later released or closed. Healthy subscribers must still receive everything and every cache must stay current at every "
                 "quiescent point; a released consumer must hold exactly the first EventBufsiz events offered to it (in order). "
-                "Non-trivial: an observation that carried events.",
+                "Non-trivial: an observation that carried events. Also: topup — a stalled filtered leaf is brought to within three slots of a full buffer, refiltered and released: the batch must be delivered as far as it fits.",
         "trusted_base": TREE_TB,
         "assumptions": ["events are paced so that only the stalled consumers' own buffers can overflow"],
     },
@@ -262,7 +262,7 @@ PROPS = {
                 "subscription, filtered subscription, clone, monitor; root Close or context cancel at the end), at quiescent points and inside "
                 "bursts with events / Refilter / relists in flight, with stalled consumers present. After every action the Done() of every node "
                 "and the closed-ness of every Events() channel are compared with the closed-subtree prediction, and traffic keeps flowing "
-                "through the survivors. Non-trivial: an observation that carried events.",
+                "through the survivors. Non-trivial: an observation that carried events. Also trees with consumers a whole buffer behind when they are closed, and the controller engine: Close / cancel after watch and list faults must take the root and its subscriber down.",
         "trusted_base": TREE_TB,
         "assumptions": ["'eventually' = at the next quiescent point in virtual time"],
     },
@@ -322,7 +322,7 @@ PROPS = {
                 "stopped by channel or context at a random phase of the cycle after ~12 cycles; the time-stamped List calls and "
                 "consumptions are replayed through the Lean ticker model (every label must be enabled: one list at a time, next list "
                 "within [period-fuzz, period+fuzz] of the consumption, relisting up to the stop) and the lister must be done 50ms "
-                "after the stop. Plus the ctrl engine's list timing checks. Non-trivial: every grid point.",
+                "after the stop. Plus the ctrl engine's list timing checks. Non-trivial: every grid point. Also: listers stopped at the very instant a List call starts and before they start at all; the controller built with its options in any order.",
         "trusted_base": CTRL_TB + ["ticker model KcacheModel/Tick.lean written by hand from ticker.go / lister.go; Go timer semantics modelled (armed / fired-unread / idle)"],
         "assumptions": ["client List returns once its context is cancelled", "virtual time (testing/synctest); the 1.23+ timer semantics of the newer toolchain"],
     },
@@ -339,7 +339,7 @@ PROPS = {
                 "k%3+2 objects) by sync/refilter, 1-6 (thorough 1-12) reader goroutines call List()/Get() concurrently and scribble over "
                 "the returned slices; calls and returns are stamped by one atomic counter; 6 (thorough 40) rounds of 300-600 writes, once built "
                 "normally and once with the race detector. Each history is checked for atomicity: every List() is one complete state, inside its "
-                "real-time window, no new-old inversion; every Get() is the key's version in a state of its window. Non-trivial: every round.",
+                "real-time window, no new-old inversion; every Get() is the key's version in a state of its window. Non-trivial: every round. Also: two rounds over 260+ objects (one under a filter that takes its time, Gets on the keys being written); Gets and Lists are ordered together in real time (a read called after another returned must not need an older state: C15.backwardsPair_rejects_sound); rounds with a reader that comes back rarely while a relist is held up for 900 ms.",
         "trusted_base": [
             "actor model KcacheModel/Actor.lean written by hand from cache.go (request channels, one goroutine, buffered result channel)",
             "the history judgement is KC.Lin.accepts (KcacheModel/Lin.lean), proved sound and complete w.r.t. linearizability of single-writer histories "
